@@ -4,6 +4,10 @@ values).  Helper lemmas: Proofs/C05*.  Model: Model/C05 (constants, type table, 
 from Gen/C05, regenerated from /repo on every run).  Device side: Spec/C05.
 -/
 import CfVerif.Proofs.C05
+import CfVerif.Proofs.C05Data
+import CfVerif.Proofs.C05Flags
+import CfVerif.Proofs.C05Readd
+import CfVerif.Proofs.C05Sync
 namespace CfVerif.C05
 open CfVerif Spec
 
@@ -179,6 +183,218 @@ theorem create_enumerates (toc : Toc) (id : Nat) (hid : id < 256) (vars : List L
   obtain ⟨_, t1, t2⟩ := tb_table v.fetch g.2.1 v.stored g.2.2.1
   exact ⟨t1, t2, g.elementId⟩
 
+/-- The same at the API level: `start()` on an accepted, not yet added V2 configuration (table variables
+only, block/variable budget not exhausted) raises nothing, marks the configuration pending and hands exactly
+those messages to `send_packet`, each with expected reply (command, id). -/
+theorem start_creates (st : St) (h : Nat) (c : Conf) (toc : Toc)
+    (hc : st.conf? h = some c) (hcf : c.hasCf = true) (hl : st.link = true) (hna : c.added = false)
+    (htoc : st.toc = some toc) (hv2 : c.useV2 = true) (hid : c.id < 256)
+    (hbudget : (countBlocks st st.blocks).1 < Gen.C05.maxBlocks ∧
+               (countBlocks st st.blocks).2 + c.variables.length ≤ Gen.C05.maxVariables)
+    (hg : ∀ v ∈ c.variables, GoodVar toc v) :
+    ∃ m ms, start st h = some { st := st.setConf h { c with pending := c.pending + 1 },
+                                outs := txs c.id Gen.C05.cmdCreateV2 Gen.C05.cmdAppendV2 (m :: ms), err := none } ∧
+      (∀ x ∈ m :: ms, x.length ≤ 30) ∧
+      HasHeader Gen.C05.cmdCreateV2 c.id m ∧ (∀ x ∈ ms, HasHeader Gen.C05.cmdAppendV2 c.id x) ∧
+      ((m :: ms).map fwEntries).flatten = c.variables.map (entryOf toc) := by
+  obtain ⟨m, ms, h1, h2, h3, h4, h5, _⟩ := create_enumerates toc c.id hid c.variables hg
+  refine ⟨m, ms, ?_, h2, h3, h4, h5⟩
+  have hb2 : ¬ ((countBlocks st st.blocks).2 + c.variables.length > Gen.C05.maxVariables) := by omega
+  simp only [start, hc, hcf, hl, hna, create, hbudget.1, hb2, hv2, htoc, h1, Bool.not_true, Bool.false_eq_true,
+    if_false, if_true, beq_self_eq_true]
+
+/-- Variables that pass `add_config` are encodable: a TOC variable whose types are in the type table and whose
+name the table knows under a 16-bit ident. -/
+theorem accepted_vars_good (toc : Toc) (hid : ∀ e ∈ toc, e.ident < 65536) (v : LVar) (ht : v.isToc = true)
+    (hf : (typeRow? v.fetch).isSome = true) (hs : (typeRow? v.stored).isSome = true) (hh : toc.has v.name) :
+    GoodVar toc v := by
+  have hlt : ∀ t, (typeRow? t).isSome = true → t < 16 := by
+    intro t h
+    unfold typeRow? at h
+    rw [List.find?_isSome] at h
+    obtain ⟨e, he, hp⟩ := h
+    have hall : Gen.C05.types.all (fun e => decide (e.1 < 16)) = true := by decide
+    have := List.all_eq_true.mp hall e he
+    simp only [beq_iff_eq] at hp
+    simpa [hp] using this
+  obtain ⟨e, he, hn⟩ := hh
+  refine ⟨ht, hlt _ hf, hlt _ hs, ?_⟩
+  unfold Toc.elementId
+  cases hfd : toc.find? (fun e => e.name == v.name) with
+  | none =>
+    have := List.find?_eq_none.mp hfd e he
+    simp [hn] at this
+  | some e0 => exact ⟨e0.ident, rfl, hid e0 (List.mem_of_find?_eq_some hfd)⟩
+
+/-- D8 (known finding): a raw-memory variable cannot be created — `_setup_log_elements` raises TypeError
+(`bytearray.append(bytes)`) when it reaches the variable, in either protocol generation; the messages of the
+variables before it that filled whole packets have already been sent.  `create_enumerates` therefore covers
+table variables only. -/
+theorem memory_variable_create_raises (toc : Option Toc) (v2 : Bool) (data : List UInt8) (v : LVar) (vs : List LVar)
+    (hm : v.isToc = false) (ht : typeByte v < 256) : fill toc v2 data (v :: vs) = .error .typeError := by
+  simp [fill, hm, ht]
+
+/-- The observation about ≥ 10 variables, decided: the packet that is full carries a dangling type byte
+(30 bytes: header, 9 entries, 1 byte); the firmware ignores it and the variable is sent again, whole, at the
+start of the next message — so the enumeration holds at every split (this is `create_enumerates`). -/
+theorem dangling_type_byte (toc : Toc) (data : List UInt8) (v : LVar) (vs : List LVar) (hg : GoodVar toc v)
+    (hfull : Gen.C05.maxDataSize - (data.length + 1) < Gen.C05.sizeToAdd) :
+    fill (some toc) true data (v :: vs) = .ok (data ++ [UInt8.ofNat (typeByte v)], some (v :: vs)) := by
+  rw [fill_cons toc data v vs hg, if_neg (by omega)]
+
+/-! ## Clause 3: every log data packet decodes to the timestamp and values the device encoded -/
+
+/-- For a block whose variables are `items.map (·.1)` (distinct names), every 24-bit timestamp and all
+values of the variables' fetch types (integers of every width and sign, float32 / FP16 as bit patterns),
+the packet the device builds — `blk ts24 values…`, optionally followed by padding — is decoded without an
+exception into exactly one `data_received_cb` call carrying that timestamp and `name ↦ value` for every
+variable, and the same sample is queued once for every SyncLogger registered on the block. -/
+theorem unpack_inverse (st : St) (h : Nat) (c : Conf) (items : List (LVar × Val)) (ts : Nat) (pkt extra : List UInt8)
+    (hc : st.conf? h = some c) (hvars : c.variables = items.map (·.1))
+    (hfind : findBlock st c.id st.blocks = some h) (hid : c.id < 256)
+    (hok : ItemsOk items) (hts : ts < 2 ^ 24) (hnd : (items.map (·.1.name)).Nodup)
+    (henc : devEncode (UInt8.ofNat c.id) ts (wireVals items) = .ok pkt) :
+    newPacket st Gen.C05.chanLogdata (pkt ++ extra) =
+      { st := (deliver h ts (items.map fun p => (p.1.name, p.2)) c.dataCbs st).1,
+        outs := .data h ts (items.map fun p => (p.1.name, p.2)) ::
+                  (deliver h ts (items.map fun p => (p.1.name, p.2)) c.dataCbs st).2,
+        err := none } :=
+  onLogData_spec st h c items ts pkt extra hc hvars hfind hid hok hts hnd henc
+
+/-- cflib's type table and the firmware's log types agree on the size and layout of every type -/
+theorem types_match_firmware {t : Nat} {c : Code} (h : codeOf t = some c) :
+    sizeFromId t = .ok c.size ∧ fmtFromId t = .ok [c] := table_codes h
+
+/-! ## Clause 4: the added/started flags and callbacks follow the device's acknowledgements -/
+
+/-- One acknowledgement `cmd blk status`, any state: the flags of every configuration afterwards are
+`Spec.ackEffect` applied to the configuration the block id names (first live block with that id) when the
+packet was processed without an exception, and unchanged otherwise / for every other configuration. -/
+theorem ack_effect (st : St) (cmd id status k : Nat) (c : Conf) (hk : st.conf? k = some c) :
+    ∃ c', (onSettings st cmd id status).st.conf? k = some c' ∧
+      flagsOf c' = (if (onSettings st cmd id status).err = none ∧ findBlock st id st.blocks = some k
+                    then ackEffect cmd status (flagsOf c) else flagsOf c) :=
+  onSettings_flags st cmd id status k c hk
+
+/-- … and the property-setter callbacks fired are exactly the flag changes of that configuration
+(`started_cb(block, v)` then `added_cb(block, v)`), none when the id names no live block. -/
+theorem ack_callbacks (st : St) (cmd id status : Nat) :
+    (onSettings st cmd id status).outs.filter isFlagCb =
+      match findBlock st id st.blocks with
+      | none => []
+      | some h => flagCbs h (((st.conf? h).map flagsOf).getD (false, false))
+                    ((((onSettings st cmd id status).st.conf? h).map flagsOf).getD (false, false)) := by
+  cases hf : findBlock st id st.blocks with
+  | none => exact (onSettings_noblock st cmd id status hf).2
+  | some h =>
+    obtain ⟨ch, hch, _⟩ := findBlock_some hf
+    obtain ⟨c', hset, _, hcb⟩ := onSettings_block st cmd id status h ch hf hch
+    have hc' : (onSettings st cmd id status).st.conf? h = some c' := by
+      unfold St.conf? at hch ⊢
+      rw [hset]
+      have hlt : h < st.confs.length := by
+        rcases Nat.lt_or_ge h st.confs.length with hl | hl
+        · exact hl
+        · rw [List.getElem?_eq_none hl] at hch; cases hch
+      exact List.getElem?_set_self hlt
+    simp only [hcb, hch, hc', Option.map_some, Option.getD_some]
+
+/-- Over all histories (add / start / stop / delete / acknowledgements incl. error statuses / data / reset /
+reconnect / re-add / SyncLogger operations): the flags of a configuration are the fold of `Spec.ackEffect`
+over the acknowledgements that named its block and were processed; no other operation changes them. -/
+theorem flags_follow_acks (st : St) (ops : List Op) (k : Nat) (c : Conf) (hk : st.conf? k = some c) :
+    ∃ c', (run st ops).1.conf? k = some c' ∧ flagsOf c' = ackFlags k st (flagsOf c) ops :=
+  run_flags k ops st c hk
+
+/-- START is sent on the create acknowledgement: ok / "already exists" for a block that is not yet added
+transmits `(START, id, period)` once, then sets `added` (callback) and clears `pending`. -/
+theorem start_sent_on_create_ack (st : St) (cmd id status h : Nat) (ch : Conf) (p : Nat)
+    (hfind : findBlock st id st.blocks = some h) (hc : st.conf? h = some ch)
+    (hcmd : cmd = Gen.C05.cmdCreate ∨ cmd = Gen.C05.cmdCreateV2) (hst : status = 0 ∨ status = Gen.C05.errnoEEXIST)
+    (hna : ch.added = false) (hid : id < 256) (hper : ch.period = (p : Int)) (hp : p < 256) :
+    onSettings st cmd id status =
+      { st := st.setConf h { ch with added := true, pending := 0 },
+        outs := [.tx [UInt8.ofNat Gen.C05.cmdStart, UInt8.ofNat id, UInt8.ofNat p] [Gen.C05.cmdStart, id], .addedCb h true],
+        err := none } :=
+  create_ack_starts st cmd id status h ch p hfind hc hcmd hst hna hid hper hp
+
+/-! ## Clause 5: re-adding a configuration does not change its variable list (repaired `add_config`, D6) -/
+
+/-- After `add_config` has accepted a configuration, every further history that does not call
+`add_variable`/`add_memory` on it — reconnects, TOC downloads, any number of further `add_config` calls
+(directly or through `SyncLogger.connect`), acknowledgements, data — leaves its variable list exactly
+the one fixed at the first acceptance, and nothing is waiting to be resolved again. -/
+theorem readd_stable (st : St) (h : Nat) (c : Conf) (toc : Toc) (ms : Int) (r : Res)
+    (hc : st.conf? h = some c) (hlink : st.link = true) (htoc : st.toc = some toc)
+    (hwf : TocWF toc) (hvw : VarsWF c.variables) (hp : c.period = periodOf ms)
+    (hadd : addConfig st h = some r) (hok : r.err = none)
+    (ops : List Op) (hno : ∀ op ∈ ops, op.editsVars h = false) :
+    ∃ c', (run r.st ops).1.conf? h = some c' ∧
+      c'.variables = c.variables ++ resolvedVars toc c.defaults ∧ c'.defaults = [] := by
+  obtain ⟨r', hr', _, _, hacc, _⟩ := accept_iff st h c toc ms hc hlink htoc hwf hvw hp
+  rw [hadd] at hr'; cases hr'
+  obtain ⟨hconf, _, _⟩ := hacc hok
+  exact run_vars h ops r.st _ hconf rfl hno
+
+/-- The same for a configuration that is already resolved, from any state (no hypothesis on the table). -/
+theorem resolved_stable (st : St) (k : Nat) (c : Conf) (hk : st.conf? k = some c) (hd : c.defaults = [])
+    (ops : List Op) (hno : ∀ op ∈ ops, op.editsVars k = false) :
+    ∃ c', (run st ops).1.conf? k = some c' ∧ c'.variables = c.variables ∧ c'.defaults = [] :=
+  run_vars k ops st c hk hd hno
+
+/-- D6, the code before the repair: the names stay in `default_fetch_as`, so a second `add_config` appends
+the resolved variables again (1 variable becomes 2). -/
+theorem readd_live_counterexample :
+    ¬ (∀ (st : St) (h : Nat) (r1 r2 : Res), addConfigLive st h = some r1 → r1.err = none →
+        addConfigLive r1.st h = some r2 → r2.err = none →
+        (r2.st.conf? h).map (·.variables) = (r1.st.conf? h).map (·.variables)) := by
+  intro H
+  have := H { confs := [{ period := 10, defaults := [0] }], link := true, toc := some [⟨0, 0, "uint8_t"⟩] } 0 _ _ rfl rfl rfl rfl
+  revert this
+  decide
+
+/-! ## Clause 6: SyncLogger yields each decoded sample once, in order, ending at disconnect -/
+
+/-- Over all histories and for every SyncLogger `s`: what `__next__` took from the queue during the history
+(`popsOf`: the yielded samples, in the order yielded, and consumed DISCONNECT_EVENTs), followed by what is
+still queued, is exactly what was queued before followed by what was put during the history (`putsOf`: one
+item per decoded data packet of a block the logger is registered on — `unpack_inverse` — and one
+DISCONNECT_EVENT per `_disconnected`).  Hence nothing is yielded twice, skipped over or reordered. -/
+theorem synclogger_fifo (st : St) (ops : List Op) (s : Nat) (sl : SL) (hs : st.sls[s]? = some sl) :
+    ∃ sl', (run st ops).1.sls[s]? = some sl' ∧
+      sl.queue ++ putsOf s (run st ops).2 = popsOf s (run st ops).2 ++ sl'.queue :=
+  run_qrel s ops st sl hs
+
+/-- The decoded sample is queued exactly once, at the tail, for a SyncLogger registered (once) on the block. -/
+theorem sample_queued_once (st : St) (h ts s : Nat) (vals : List (Nat × Val)) (sl : SL) (hs : st.sls[s]? = some sl) :
+    (deliver h ts vals [s] st).2 = [.put s (.sample ts vals h)] ∧
+    (deliver h ts vals [s] st).1.sls[s]? = some { sl with queue := sl.queue ++ [.sample ts vals h] } := by
+  have hlt : s < st.sls.length := by
+    rcases Nat.lt_or_ge s st.sls.length with hl | hl
+    · exact hl
+    · rw [List.getElem?_eq_none hl] at hs; cases hs
+  simp [deliver, hs, List.getElem?_set_self hlt]
+
+/-- `__next__` on a connected logger: blocks on an empty queue, yields the head sample, or ends the iteration
+when the head is DISCONNECT_EVENT — always removing exactly the head. -/
+theorem next_takes_head (st : St) (s : Nat) (sl : SL) (hs : st.sls[s]? = some sl) (hc : sl.connected = true) :
+    (sl.queue = [] → slNext st s = some { st := st, outs := [.blocks s] }) ∧
+    (∀ ts vals h q, sl.queue = .sample ts vals h :: q →
+      slNext st s = some { st := { st with sls := st.sls.set s { sl with queue := q } }, outs := [.yield s (.sample ts vals h)] }) ∧
+    (∀ q, sl.queue = .disc :: q →
+      slNext st s = some { st := { st with sls := st.sls.set s { sl with queue := q } }, outs := [.stop s true] }) := by
+  refine ⟨fun hq => ?_, fun ts vals h q hq => ?_, fun q hq => ?_⟩ <;> simp [slNext, hs, hc, hq]
+
+/-- Ending at disconnect: when the link goes away `_disconnected` leaves the logger not connected with
+DISCONNECT_EVENT queued behind the samples already decoded, and from then on (until a new `connect`)
+`__next__` raises StopIteration at once, without touching the queue. -/
+theorem ends_at_disconnect (st : St) (s : Nat) (sl : SL) (r : Res) (hs : st.sls[s]? = some sl)
+    (hr : slDisconnected st s = some r) (hok : r.err = none) :
+    ∃ sl', r.st.sls[s]? = some sl' ∧ sl'.connected = false ∧ sl'.queue = sl.queue ++ [.disc] ∧
+      slNext r.st s = some { st := r.st, outs := [.stop s false] } := by
+  obtain ⟨sl', h1, h2, h3⟩ := (slDisconnected_spec s hr).2 hok sl hs
+  exact ⟨sl', h1, h2, h3, by simp [slNext, h1, h2]⟩
+
 /-! ## Non-vacuity -/
 
 def exToc : Toc := [⟨0, 0, "uint8_t"⟩, ⟨1, 300, "float"⟩, ⟨2, 2, "FP16"⟩]
@@ -194,5 +410,27 @@ example : ((addConfig exSt 0).bind fun r => r.st.conf? 0).map (·.variables) =
 /-- 10 one-byte variables: 9 entries + a dangling type byte (30 bytes), then 1 entry in an append message -/
 example : (createLoop (some ((List.range 10).map fun k => ⟨k, k, "uint8_t"⟩)) true 1 7 11 6
     ((List.range 10).map fun k => ⟨k, 1, 1, true, 0⟩)).1.map (fun o => match o with | .tx d _ => d.length | _ => 0) = [30, 5] := by decide
+
+example : devEncode 1 0x123456 [(.H, .int 13567), (.B, .int 18), (.e, .flt 0x8000)] =
+    .ok [1, 0x56, 0x34, 0x12, 0xff, 0x34, 0x12, 0x00, 0x80] := by decide
+example : ItemsOk [(⟨1, 2, 2, true, 0⟩, .int 13567), (⟨0, 1, 1, true, 0⟩, .int 18), (⟨2, 8, 8, true, 0⟩, .flt 0x8000)] := by
+  intro p hp
+  simp only [List.mem_cons, List.not_mem_nil, or_false] at hp
+  rcases hp with rfl | rfl | rfl
+  · exact ⟨.H, rfl, rfl⟩
+  · exact ⟨.B, rfl, rfl⟩
+  · exact ⟨.e, rfl, rfl⟩
+/-- create ok, start ok, stop ok, start error, delete "no such block": (added, started) ends (false, false) -/
+example : [(6, 0), (3, 0), (4, 0), (3, 12), (2, 2)].foldl (fun f a => ackEffect a.1 a.2 f) (false, false) = (false, false) ∧
+    [(6, 0), (3, 0)].foldl (fun f a => ackEffect a.1 a.2 f) (false, false) = (true, true) := by decide
+example : (Op.addConfig 0).editsVars 0 = false ∧ (Op.slConnect 0).editsVars 0 = false ∧ (Op.addVar 0 1 "").editsVars 0 = true := by decide
+
+/-- a SyncLogger session: connect, create ack, two data packets, next, link lost, next, next, next -/
+def exSession : List Op := [.newSl [0], .slConnect 0, .rx 1 [6, 1, 0], .rx 2 [1, 1, 0, 0, 7], .rx 2 [1, 2, 0, 0, 9],
+  .slNext 0, .linkLost, .slNext 0, .slNext 0, .slNext 0]
+def exConf2 : Conf := { period := 10, variables := [⟨0, 1, 1, true, 0⟩] }
+def exSt2 : St := { confs := [exConf2], link := true, toc := some [⟨0, 0, "uint8_t"⟩], useV2 := true }
+example : popsOf 0 (run exSt2 exSession).2 = [.sample 1 [(0, .int 7)] 0] ∧
+    putsOf 0 (run exSt2 exSession).2 = [.sample 1 [(0, .int 7)] 0, .sample 2 [(0, .int 9)] 0, .disc] := by decide
 
 end CfVerif.C05
